@@ -93,6 +93,8 @@ fn cases() -> Vec<(&'static str, M, fn(&mut &str) -> PResult<usize, ContextError
         ("try_map", M::TryU8(b(digits())), |i| Parser::try_map(digit1, |s: &str| s.parse::<u8>()).map(|v| v as usize).parse_next(i)),
         ("extras-like", M::Opt(b(M::Alt(vec![M::Seq(vec![pre_m(), build_m()]), pre_m(), build_m()]))),
             |i| opt(alt(((r_pre, r_build).map(|_| 0usize), r_pre.map(|_| 0usize), r_build.map(|_| 0usize)))).map(|o| o.is_some() as usize).parse_next(i)),
+        ("value", M::Alt(vec![M::Lit("a1"), M::Lit("a")]), |i| alt((literal("a1").value(7usize), literal("a").value(7usize))).map(|_| 0usize).parse_next(i)),
+        ("void", M::Seq(vec![M::Tw(0, |c| c == ' ' || c == '\t'), M::Lit("||"), M::Tw(0, |c| c == ' ' || c == '\t')]), |i| (space0, literal("||"), space0).void().map(|_| 0usize).parse_next(i)),
         ("version-like", M::Seq(vec![M::Opt(b(M::Alt(vec![M::Lit("v"), M::Lit("V")]))), M::Tw(0, |c| c == ' ' || c == '\t'), digits(), M::Lit("."), digits()]),
             |i| (opt(alt((literal("v"), literal("V")))), space0, digit1, literal("."), digit1).map(|_| 0usize).parse_next(i)),
     ]
